@@ -57,7 +57,7 @@ def schema_terms():
         S("float", ("min", -1.7e308), ("max", 1.7e308)), rx("[a-c]{40,}"), rx("x+"),
         # a precision float whose bounds carry more digits than a small decimal context; the
         # result of substituting into a RELAXED dict with several free keys
-        S("float", ("min", 0.123456789), ("max", 9.87654321), ("precision", 3)),
+        S("float", ("min", 0.1230004), ("max", 9.8769996), ("precision", 3)),
         ("subst", ("dict", _D3[1], True), {"b": "xy"}), ("subst", ("dict", _D4[1], True), {"a": 5}),
         ("add", _D3, ("dict", (("n1", False, INT), ("n2", False, S("bool")), ("n3", False, S("str", ln(1))),
                                ("n4", False, S("int", ("min", 0), ("max", 7))), ("n5", False, INT)), False)),
